@@ -73,6 +73,22 @@ if __name__ == "__main__":
                 r = confirm(pid, m, src="/tmp/mut2_%s.out/%s" % (pid, m), name=name)
                 print(json.dumps({k: v for k, v in r.items() if k != "demo_mutant_tail"}))
         sys.exit(0)
+    if args and args[0] == "--auto":
+        # confirm_seed.py --auto <src pattern with {pid}> C01 C02 ...   files <src>/m1, m2 under the next free names
+        pat = args[1]
+        for pid in args[2:]:
+            have = [int(d.split("_m")[1]) for d in os.listdir(os.path.join(VERIF, "seeded"))
+                    if d.startswith(pid + "_m") and d.split("_m")[1].isdigit()]
+            nxt = max(have + [0]) + 1
+            for k, m in enumerate(("m1", "m2")):
+                src = os.path.join(pat.format(pid=pid), m)
+                if not os.path.exists(os.path.join(src, "patch.diff")):
+                    print(json.dumps(dict(property=pid, mutant=m, missing=True)))
+                    continue
+                r = confirm(pid, m, src=src, name="m%d" % (nxt + k))
+                r["filed_as"] = "%s_m%d" % (pid, nxt + k) if r.get("confirmed") else None
+                print(json.dumps({k2: v for k2, v in r.items() if k2 != "demo_mutant_tail"}))
+        sys.exit(0)
     for i in range(0, len(args), 2):
         r = confirm(args[i], args[i + 1])
         print(json.dumps({k: v for k, v in r.items() if k != "demo_mutant_tail"}))
